@@ -491,6 +491,10 @@ def sources_for(stream: bytes, level: int):
         out.append(("file(handle at byte 6, read=None)", lambda: file_source(stream, 6), {}))
         out.append(("file(handle at byte 2, read=7)", lambda: file_source(stream, 2), {"buffer_read_size_bytes": 7}))
         out.append(("file(handle at end, read=None)", lambda: file_source(stream, n), {}))
+    # a file object whose read(n) returns fewer bytes than asked for before the end of the file (legal for buffered readers over
+    # interactive raw streams): only an empty result means end of file
+    out.append(("file(short reads of 3, read=7)", lambda: file_source(stream, max_chunk=3), {"buffer_read_size_bytes": 7}))
+    out.append(("file(short reads of 1, read=4096)", lambda: file_source(stream, max_chunk=1), {"buffer_read_size_bytes": 4096}))
     # a file that lives on disk (has a descriptor; can be memory-mapped unless it is empty) behaves like any other file
     out.append(("file(on disk, read=None)", lambda: file_source(stream, on_disk=True), {}))
     out.append(("file(on disk, read=7)", lambda: file_source(stream, on_disk=True), {"buffer_read_size_bytes": 7}))
@@ -510,8 +514,8 @@ def framing_cases(ctx: Ctx, rule: str, *, truncation: bool, level: int):
     fi = prog.func(GEN)
     h = Harness(prog, source_externals(), max_steps=3_000_000)
     total = 0
-    size_sets = [[], [1], [1, 1], [4, 1, 9], [2, 300, 1], [65536], [1, 65536, 2], "zero-header", [8, 8, 8, 8], [512], [1024, 3]] \
-        if not truncation else [[3, 1, 6]]
+    size_sets = [[], [1], [1, 1], [4, 1, 9], [2, 300, 1], [65536], [1, 65536, 2], "zero-header", "idle-and-repeats", [8, 8, 8, 8], [512], [1024, 3]] \
+        if not truncation else [[3, 1, 6], [1, 65536, 2], [65530, 65535]]
     for skip in (0, 3):
         for sizes in size_sets:
             if sizes == "zero-header":
@@ -519,9 +523,24 @@ def framing_cases(ctx: Ctx, rule: str, *, truncation: bool, level: int):
                 full = mk_stream([2], skip) + bytes(skip) + ccsds_bytes(b"\x00", apid=0, flags=0, count=0) + \
                     bytes([0xE1] * skip) + ccsds_bytes(b"\x07\x08", apid=9)
                 sizes = [2, 1, 2]
+            elif sizes == "idle-and-repeats":
+                # the framer delivers every packet whatever its header says: the idle APID 2047 (with and without a secondary
+                # header), version 7 (whose length field means the same), neighbours of one APID that repeat a sequence count
+                hdrs = [dict(apid=2047, count=0), dict(apid=2047, shf=1, count=0), dict(apid=9, count=5), dict(apid=9, count=5),
+                        dict(apid=1283, version=7, count=1), dict(apid=2047, version=7, type=1, shf=1, flags=0, count=16383), dict(apid=9, count=5)]
+                sizes = [2, 1, 3, 3, 4, 1, 3]
+                full = b"".join(bytes([0xE7] * skip) + ccsds_bytes(bytes([65 + i] * n), **hd) for i, (n, hd) in enumerate(zip(sizes, hdrs)))
             else:
                 full = mk_stream(sizes, skip)
             cuts = range(0, len(full) + 1) if truncation else [len(full)]
+            if truncation and len(full) > 2000:
+                # long streams (packets up to the largest one the length field can announce): cuts around every packet boundary
+                bnd, cuts = 0, set()
+                for sz in sizes:
+                    for b in (bnd, bnd + skip + 6 + sz):
+                        cuts.update(c for c in (b - 1, b, b + 1, b + skip + 5, b + skip + 6, b + skip + 7) if 0 <= c <= len(full))
+                    bnd += skip + 6 + sz
+                cuts = sorted(cuts)
             if len(full) > 2000:
                 srcsel = 0
             else:
